@@ -29,7 +29,7 @@ Removes(s) ==
     [] s = "shapes_to_paths" -> {"basicshape"}
     [] s = "expand_shorthand" -> {"shorthand"}
     [] s = "resolve_use" -> {"use"}
-    [] s = "simplify" -> {"structure", "needlessgroup", "orphangradient"}
+    [] s = "simplify" -> {"structure", "needlessgroup"}
     [] s = "drop_unsupported" -> {"unsupported"}
     [] s = "evenodd_to_nonzero_winding" -> {"evenodd"}
     [] s = "normalize_opacity" -> {"splitopacity"}
@@ -41,11 +41,19 @@ Removes(s) ==
     [] s = "purge_orphans" -> {"orphangradient"}
     [] OTHER -> {}
 
+(* Every entry below was either read off the code or reported by the trace binding          *)
+(* (TracePipeline: a residue observed after a step that the model did not allow is drift).  *)
 MayCreate(s) ==
-  CASE s = "resolve_nested_svgs" -> {"structure"}                       \* g + clipPath
-    [] s = "resolve_use" -> {"structure"}
-    [] s = "simplify" -> {"evenodd", "splitopacity", "unrounded", "emptysubpath", "invisible"}
-    [] s = "evenodd_to_nonzero_winding" -> {"unrounded"}
+  CASE s = "discard_noise" -> {"needlessgroup"}                         \* a group loses a child
+    [] s = "apply_style_attributes" ->                                  \* style="" is opaque until applied
+         {"evenodd", "splitopacity", "invisible", "structure", "unrounded", "needlessgroup"}
+    [] s = "resolve_nested_svgs" -> {"structure", "needlessgroup", "shorthand"}   \* g + clipPath rect
+    [] s = "expand_shorthand" -> {"unrounded"}                          \* reflected control points
+    [] s = "resolve_use" ->                                             \* the copy takes the use's attributes
+         {"structure", "needlessgroup", "evenodd", "splitopacity", "invisible"}
+    [] s = "simplify" -> {"evenodd", "splitopacity", "unrounded", "emptysubpath", "invisible",
+                          "orphangradient"}     \* orphans are purged BEFORE unused shapes leave defs
+    [] s = "evenodd_to_nonzero_winding" -> {"unrounded", "emptysubpath", "invisible"}
     [] s = "normalize_opacity" -> {"unrounded"}
     [] s = "round_floats" -> {"emptysubpath", "invisible"}              \* rounding collapses slivers
     [] s = "remove_empty_subpaths" -> {"invisible"}
